@@ -81,18 +81,20 @@ class CountingSource:
         if self.fail_at is not None and self.i == self.fail_at:
             self.fail_at = None
             raise self.fail_exc
+        if self.pause:
+            # the source is slow to produce element i (i == len(items): slow to report exhaustion)
+            p = self.pause(self.i) if self.i <= len(self.items) else 0
+            if p:
+                time.sleep(p)
         if self.i >= len(self.items):
             self.exhausted_pulls += 1
+            self.i = len(self.items) + 1
             raise StopIteration
         x = self.items[self.i]
         self.i += 1
         self.pulls += 1
         if self.ledger is not None:
             self.ledger.pull()
-        if self.pause:
-            p = self.pause(self.i - 1)
-            if p:
-                time.sleep(p)
         return x
 
 
